@@ -115,6 +115,16 @@ func (c *checkCtx) writeEvidence(bt *batch, xp *xprocResult, reports []report, v
 		"build_s":         c.Build.BuildS,
 		"race_build":      c.Plan.Race,
 	}
+	if c.ID == "C18" {
+		table, tableDone := 6600, 0
+		for _, r := range bt.Results {
+			if r.Index < table && (r.Verdict == "ok" || r.Verdict == "violation") {
+				tableDone++
+			}
+		}
+		cov["enumerated_policy_table"] = map[string]any{"scenarios": table, "executed": tableDone, "complete": tableDone == table,
+			"space": "every single rule file and every ordered pair of rule files over 10 file kinds x 6 failOn forms x legacy flag x 5 pattern layouts, default group filter"}
+	}
 	ev := map[string]any{
 		"property_id": c.ID,
 		"tier":        c.Tier,
